@@ -9,7 +9,7 @@ PROP_FILES = ["Properties/C15.v"]
 THEOREMS = ["C15_response_numeric_id", "C15_response_indicators", "C15_response_level_binary", "C15_response_single_term"]
 ASSUMPTIONS = ["no missing values (the NA pattern is the same for every response)"]
 RULE = ("8 response forms (numeric, str, Categorical, ordered, y[ident], y['quoted'], calls, prop with column or "
-        "constant trials) and invalid multi-term responses x random right-hand sides; non-trivial = accepted; "
+        "constant trials, also with narrow integer dtypes) and invalid multi-term responses x random right-hand sides; non-trivial = accepted; "
         "distinct = (formula, frame head)")
 EXHAUSTIVE = {"quick": False, "thorough": False}
 
@@ -29,6 +29,25 @@ def gen(rng, tier):
         rhs = gen_dm.rand_formula(rng, with_group=0.3, response="").split("~", 1)[1].strip()
         cases.append({"formula": f"{resp} ~ {rhs}", "frame": gen_dm.make_frame(rng), "na": "drop", "kind": kind,
                       "resp": resp, "rhs": rhs})
+    # narrow integer dtypes: the successes in int8 / uint8 / int16, the trials too large for that dtype
+    # (a wider column, or a constant): prop is still the pair (successes, trials)
+    for i in range(60 if tier != "thorough" else 600):
+        fr = gen_dm.make_frame(rng)
+        nrow = len(fr["columns"][0]["values"])
+        sd = rng.choice(["int8", "uint8", "int16", "int32"])
+        hi = {"int8": 127, "uint8": 255, "int16": 32767, "int32": 70000}[sd]
+        for col in fr["columns"]:
+            if col["name"] == "succ":
+                col["values"] = [rng.randint(0, min(hi, 120)) for _ in range(nrow)]
+                col["dtype"] = sd
+            if col["name"] == "n_trials":
+                col["values"] = [rng.randint(hi + 1, hi + 300) for _ in range(nrow)]
+                col["dtype"] = rng.choice(["int64", "int32"]) if hi >= 32767 else rng.choice(["int64", "int16", "int32"])
+        const = hi + rng.randint(1, 200)
+        resp = rng.choice(["prop(succ, n_trials)", f"p(succ, {const})", "proportion(succ, n_trials)"])
+        rhs = gen_dm.rand_formula(rng, with_group=0.2, response="").split("~", 1)[1].strip()
+        cases.append({"formula": f"{resp} ~ {rhs}", "frame": fr, "na": "drop", "kind": "prop", "resp": resp,
+                      "rhs": rhs, "tag": "narrow"})
     for rhs in ["x + f", "0 + x", "x + (1|g)"]:
         cases.append({"formula": rhs, "frame": gen_dm.make_frame(rng), "na": "drop", "kind": "none", "resp": None, "rhs": rhs})
     return cases
@@ -99,7 +118,8 @@ def oracle(c):
         if R.shape[1] != 1 or not np.array_equal(R[:, 0], want):
             return f"{f!r}: {resp} is not 1 exactly where {var} == {level!r}"
     elif kind == "prop":
-        trials = df["n_trials"].to_numpy(dtype=float) if "n_trials" in resp else np.full(n, 30.0)
+        trials = (df["n_trials"].to_numpy(dtype=float) if "n_trials" in resp
+                  else np.full(n, float(re.search(r",\s*(\d+)\)", resp).group(1))))
         if R.shape[1] != 2 or not np.array_equal(R[:, 0], df["succ"].to_numpy(dtype=float)) \
                 or not np.array_equal(R[:, 1], trials):
             return f"{f!r}: prop response is not [successes, trials]"
